@@ -215,10 +215,53 @@ def analyse_seq(scn, rng, nstops):
         VP.RESUME['on'] = True
         res = copy.deepcopy(scn)
         res.pop('c14_stop', None)
-        res['persist'] = dict(mode=mode if mode != 'on_crash' else 'real_time', resume=True)
+        second = st.get('second')
+        if second is None and not fixed and mode == 'real_time' and di + 2 <= scn['end_i'] - 1 and rng.random() < 0.5:
+            second = rng.randint(di + 1, scn['end_i'] - 1)       # the resumed run is itself stopped and resumed (a chain of two stops)
+        res['persist'] = dict(mode=mode if mode != 'on_crash' else 'real_time', resume=True, snapshot=second is not None)
         res['start_i'] = di + 1
+        if second is not None:
+            VP.SNAPSHOTS.clear()
         o2 = run.run_scenario(res, want_result=True)
         VP.RESUME['on'] = False
+        if second is not None and not o2['exc']:
+            snaps2 = dict(VP.SNAPSHOTS)
+            d2str = str(days[second])
+            if d2str in snaps2:
+                VP.STORE.clear()
+                VP.STORE.update(snaps2[d2str])
+                VP.RESUME['on'] = True
+                res3 = copy.deepcopy(scn)
+                res3.pop('c14_stop', None)
+                res3['persist'] = dict(mode='real_time', resume=True)
+                res3['start_i'] = second + 1
+                o3 = run.run_scenario(res3, want_result=True)
+                VP.RESUME['on'] = False
+                if o3['exc']:
+                    raise RuntimeError('harness (second resumed part): %s %s' % (o3['exc']['cls'], o3['exc']['tb'][-800:]))
+                cx.stats['resumes'] = cx.stats.get('resumes', 0) + 1
+                cx.stats['resume_twice'] = cx.stats.get('resume_twice', 0) + 1
+                cx.keys.add(repr(('twice', scn['cfg']['base']['frequency'], analyser)))
+                s3 = copy.deepcopy(scn)
+                s3['c14_stop'] = dict(day=di, mode=mode, second=second)
+                a3, b3 = suffix(o['trace'], W.dint(days[second])), suffix(o3['trace'], W.dint(days[second]))
+                if a3 is not None and b3 is not None:
+                    d3 = compare(a3, b3)
+                    if d3:
+                        cx.hits.append(dict(clause='C14.continuation_differs', sig=dict(mode='twice', mark=d3['mark'], what=d3.get('op') or d3.get('ev'), field=d3['path'].split('/')[-1]),
+                                            detail=dict(stops=[dstr, d2str], first_difference=d3), scn=s3))
+                    cx.stats['marks_compared'] = cx.stats.get('marks_compared', 0) + len(a3)
+                elif not failed_full:
+                    cx.hits.append(dict(clause='C14.continuation_differs', sig=dict(mode='twice', what='no settlement of the second stop day'), detail=dict(stops=[dstr, d2str]), scn=s3))
+                if analyser and rep is not None:
+                    r3 = (o3.get('result') or {}).get('sys_analyser')
+                    if r3 is None:
+                        cx.hits.append(dict(clause='C14.resumed_report_missing', sig=dict(mode='twice'), detail=dict(stops=[dstr, d2str]), scn=s3))
+                    else:
+                        rd3 = report_diff(rep, r3)
+                        if rd3:
+                            cx.hits.append(dict(clause='C14.report_differs', sig=dict(mode='twice', what=rd3['what'], key=rd3.get('column') or rd3.get('key')),
+                                                detail=dict(stops=[dstr, d2str], diff=rd3), scn=s3))
         if o2['exc']:
             raise RuntimeError('harness (resumed part): %s %s' % (o2['exc']['cls'], o2['exc']['tb'][-800:]))
         cx.stats['resumes'] = cx.stats.get('resumes', 0) + 1
@@ -326,7 +369,7 @@ _base = acct_prop.make(
           'that snapshots the store at every end-of-day persistence point; for stop days (quick: 3 per scenario + one ON_NORMAL_EXIT split + sometimes '
           'an ON_CRASH split; thorough: every day) a new run is started on the next trading day from the persisted state and its full recorded trace '
           '(replayed settlement of the stop day, every later event, order, fill, position, cash, net value, API result) is compared mark by mark with '
-          'the uninterrupted run; the accounts at the stop are pushed through Model/Persist.v (persist / restore) and compared with what the resumed run '
+          'the uninterrupted run (half of the real-time stops are followed by a second stop of the resumed run: a chain of two resumptions); the accounts at the stop are pushed through Model/Persist.v (persist / restore) and compared with what the resumed run '
           'starts from, the published event sequence of the resumed run with the resumable executor model, the report\'s days with the merge model; the '
           'report of the resumed run is compared with the uninterrupted report; Gen/PersistKeys.v is regenerated from get_state / set_state'),
     assumptions=['jsonpickle / pickle fidelity is runtime: only covered by the split runs (partial)',
